@@ -92,6 +92,14 @@ pub enum Delay {
     Random,
     /// only yields (used under Miri, where the scheduler is driven by its own seed)
     Yield,
+    /// a long pause at exactly one hook point (all its occurrences), nothing elsewhere:
+    /// systematically widens one specific race window per run
+    TargetPoint,
+    /// a long pause in exactly one kind of harness closure (0 fill, 1 work, 2 consumer)
+    TargetRole,
+    /// the work call for one batch (or record) stalls for 150-250 ms: results that are
+    /// outstanding for a long time while the reader fails, ends or the consumer leaves
+    StallOne,
 }
 
 impl Delay {
@@ -103,6 +111,9 @@ impl Delay {
             Delay::SlowConsumer => "slow-consumer",
             Delay::Random => "random",
             Delay::Yield => "yield",
+            Delay::TargetPoint => "target-point",
+            Delay::TargetRole => "target-role",
+            Delay::StallOne => "stall-one-worker",
         }
     }
 }
@@ -110,6 +121,8 @@ impl Delay {
 static DELAY: AtomicUsize = AtomicUsize::new(0);
 static DELAY_SEED: AtomicU64 = AtomicU64::new(0);
 static DELAY_SCALE_US: AtomicU64 = AtomicU64::new(100);
+/// hook point index (TargetPoint) or closure role (TargetRole) that gets the long pause
+pub static DELAY_TARGET: AtomicUsize = AtomicUsize::new(0);
 
 fn trng() -> u64 {
     THREAD_RNG.with(|c| {
@@ -189,11 +202,20 @@ pub fn on_point(p: Point) {
             2 => pause((r >> 8) % 15),
             _ => pause((r >> 8) % (3 * scale + 1)),
         },
-        _ => {
+        5 => {
             if r % 2 == 0 {
                 std::thread::yield_now();
             }
         }
+        6 => {
+            if p as usize == DELAY_TARGET.load(Ordering::Relaxed) {
+                // mostly long, sometimes none, so that both orders around the point occur
+                if r % 4 != 0 {
+                    pause(scale * 4 + r % (scale * 8 + 1));
+                }
+            }
+        }
+        _ => {}
     }
 }
 
@@ -202,6 +224,14 @@ pub fn install(delay: Delay, seed: u64, scale_us: u64) {
     DELAY_SEED.store(seed | 1, Ordering::SeqCst);
     DELAY_SCALE_US.store(scale_us, Ordering::SeqCst);
     set_handler(Some(on_point));
+}
+
+/// the one long stall of the `StallOne` profile (called by the work closures with their batch / record index)
+pub fn stall_if_target(index: u64) {
+    if DELAY.load(Ordering::Relaxed) == Delay::StallOne as usize && DELAY_TARGET.load(Ordering::Relaxed) as u64 == index {
+        let r = trng();
+        std::thread::sleep(Duration::from_millis(150 + r % 100));
+    }
 }
 
 /// delay inside the harness closures (work / consumer / fill)
@@ -223,6 +253,11 @@ pub fn closure_delay(role: u8) {
         (5, _) => {
             if r % 2 == 0 {
                 std::thread::yield_now()
+            }
+        }
+        (7, role) => {
+            if role as usize == DELAY_TARGET.load(Ordering::Relaxed) && r % 4 != 0 {
+                pause(scale * 4 + r % (scale * 8 + 1));
             }
         }
         _ => {}
@@ -366,6 +401,7 @@ pub struct Scenario {
     pub delay: Delay,
     pub delay_seed: u64,
     pub delay_scale_us: u64,
+    pub delay_target: usize,
 }
 
 impl Scenario {
@@ -375,7 +411,7 @@ impl Scenario {
             "sizes_head": self.sizes.head(),
             "err_at": self.err_at, "consumer": format!("{:?}", self.consumer),
             "init_fail": format!("{:?}", self.init_fail), "delay": self.delay.name(),
-            "delay_seed": self.delay_seed, "delay_scale_us": self.delay_scale_us,
+            "delay_seed": self.delay_seed, "delay_scale_us": self.delay_scale_us, "delay_target": self.delay_target,
         })
     }
     pub fn class(&self) -> String {
@@ -432,6 +468,7 @@ pub struct MockResult {
 /// Runs the mock pipeline once (blocking). All boundary events go to the global log.
 pub fn run_mock(sc: &Scenario) -> MockResult {
     FILL_AFTER_ERR.store(false, Ordering::SeqCst);
+    DELAY_TARGET.store(sc.delay_target, Ordering::SeqCst);
     install(sc.delay, sc.delay_seed, sc.delay_scale_us);
     let tag_ctr = AtomicU64::new(0);
     let init_calls = AtomicUsize::new(0);
@@ -478,6 +515,7 @@ pub fn run_mock(sc: &Scenario) -> MockResult {
             let b = set.batch.unwrap_or(u64::MAX);
             log(Ev::WorkStart(set.tag, b));
             closure_delay(1);
+            stall_if_target(b);
             let out = Out {
                 batch: b,
                 tag: set.tag,
@@ -817,7 +855,26 @@ pub fn gen_scenario(rng: &mut Rng, miri: bool, long: bool) -> Scenario {
     let delay = if miri {
         Delay::Yield
     } else {
-        *rng.pick(&[Delay::None, Delay::SlowReader, Delay::SlowWorkers, Delay::SlowConsumer, Delay::Random, Delay::Random])
+        *rng.pick(&[
+            Delay::None,
+            Delay::SlowReader,
+            Delay::SlowWorkers,
+            Delay::SlowConsumer,
+            Delay::Random,
+            Delay::Random,
+            Delay::TargetPoint,
+            Delay::TargetPoint,
+            Delay::TargetRole,
+        ])
+    };
+    let (delay, delay_target) = if !miri && !long && n > 0 && rng.chance(1, 100) {
+        (Delay::StallOne, rng.below(n))
+    } else {
+        match delay {
+            Delay::TargetPoint => (delay, rng.below(seq_io::verif_hooks::N_POINTS)),
+            Delay::TargetRole => (delay, rng.below(3)),
+            _ => (delay, 0),
+        }
     };
     Scenario {
         threads,
@@ -829,6 +886,7 @@ pub fn gen_scenario(rng: &mut Rng, miri: bool, long: bool) -> Scenario {
         delay,
         delay_seed: rng.next(),
         delay_scale_us: if long { 5 } else { *rng.pick(&[5u64, 30, 100]) },
+        delay_target,
     }
 }
 
@@ -917,15 +975,23 @@ pub struct RealScenario {
     pub delay: Delay,
     pub delay_seed: u64,
     pub delay_scale_us: u64,
+    pub delay_target: usize,
 }
 
 impl RealScenario {
+    fn with_stall(mut self, rng: &mut Rng, skip: bool, n: usize) -> RealScenario {
+        if !skip && n > 0 && rng.chance(1, 100) {
+            self.delay = Delay::StallOne;
+            self.delay_target = rng.below(n);
+        }
+        self
+    }
     pub fn describe(&self) -> serde_json::Value {
         serde_json::json!({
             "format": self.fmt.name(), "input_len": self.input.len(), "input_head": crate::gen::show(&self.input[..self.input.len().min(120)]),
             "valid_records": self.n_valid, "has_error": self.has_error, "capacity": self.cap, "chunk": self.chunk,
             "threads": self.threads, "queue": self.queue, "api": format!("{:?}", self.api), "stop_after": self.stop_after,
-            "init_fail": format!("{:?}", self.init_fail), "delay": self.delay.name(), "delay_seed": self.delay_seed,
+            "init_fail": format!("{:?}", self.init_fail), "delay": self.delay.name(), "delay_seed": self.delay_seed, "delay_target": self.delay_target,
         })
     }
 }
@@ -1019,6 +1085,7 @@ pub struct RealResult {
 macro_rules! real_impl {
     ($fname:ident, $modname:ident, $par:ident, $par_init:ident, $hash:expr) => {
         pub fn $fname(sc: &RealScenario) -> RealResult {
+            DELAY_TARGET.store(sc.delay_target, Ordering::SeqCst);
             install(sc.delay, sc.delay_seed, sc.delay_scale_us);
             let seen = std::cell::RefCell::new(RealSeen::default());
             let src = ChunkSrc {
@@ -1038,12 +1105,22 @@ macro_rules! real_impl {
                         sc.queue,
                         |rec, out: &mut RecOut| {
                             closure_delay(1);
+                            if let Some(i) = id_index(rec.head()) {
+                                stall_if_target(i as u64);
+                            }
                             out.hash = hash(&rec);
                             out.uses += 1;
                         },
                         |rec, out: &mut RecOut| {
                             let mut s = seen.borrow_mut();
-                            s.recs.push((id_index(rec.head()), out.hash == hash(&rec)));
+                            if LEAN.load(Ordering::Relaxed) {
+                                s.lean_recs += 1;
+                                if out.hash != hash(&rec) {
+                                    s.recs.push((id_index(rec.head()), false));
+                                }
+                            } else {
+                                s.recs.push((id_index(rec.head()), out.hash == hash(&rec)));
+                            }
                             closure_delay(2);
                             if Some(s.recs.len()) == stop {
                                 s.stopped_early = true;
@@ -1092,6 +1169,9 @@ macro_rules! real_impl {
                         },
                         |rec, out: &mut RecOut, s: &mut SetData| {
                             closure_delay(1);
+                            if let Some(i) = id_index(rec.head()) {
+                                stall_if_target(i as u64);
+                            }
                             out.hash = hash(&rec);
                             out.uses += 1;
                             s.n_this += 1;
@@ -1157,14 +1237,25 @@ macro_rules! real_impl {
                                 };
                                 let mut s = seen.borrow_mut();
                                 let mut k = 0;
+                                let lean = LEAN.load(Ordering::Relaxed);
                                 for rec in &*set {
-                                    s.recs.push((id_index(rec.head()), out.get(k) == Some(&hash(&rec))));
+                                    let own = out.get(k) == Some(&hash(&rec));
+                                    if lean {
+                                        s.lean_recs += 1;
+                                        if !own {
+                                            s.recs.push((id_index(rec.head()), false));
+                                        }
+                                    } else {
+                                        s.recs.push((id_index(rec.head()), own));
+                                    }
                                     k += 1;
                                 }
                                 if k != out.len() {
                                     s.recs.push((None, false));
                                 }
-                                s.set_sizes.push(k);
+                                if !lean {
+                                    s.set_sizes.push(k);
+                                }
                                 closure_delay(2);
                                 if let Some(st) = stop {
                                     if s.recs.len() >= st {
@@ -1437,9 +1528,19 @@ pub fn gen_real(rng: &mut Rng, miri: bool, tag: u64, big: bool) -> RealScenario 
         delay: if miri {
             Delay::Yield
         } else {
-            *rng.pick(&[Delay::None, Delay::SlowReader, Delay::SlowWorkers, Delay::SlowConsumer, Delay::Random])
+            *rng.pick(&[
+                Delay::None,
+                Delay::SlowReader,
+                Delay::SlowWorkers,
+                Delay::SlowConsumer,
+                Delay::Random,
+                Delay::TargetPoint,
+                Delay::TargetRole,
+            ])
         },
         delay_seed: rng.next(),
         delay_scale_us: if big { 2 } else { *rng.pick(&[5u64, 30]) },
+        delay_target: rng.below(15),
     }
+    .with_stall(rng, miri || big, n)
 }
